@@ -2,6 +2,7 @@ import Zog.Wire
 import Zog.Spec
 import Zog.Builder
 import Zog.Helpers
+import Zog.Http
 import Zog.Msg
 import Zog.Gen.Tables
 import Zog.Gen.Facts
@@ -130,6 +131,53 @@ def runChain (args : List Sexp) : Option Sexp := do
     pure (node "res" [id, issueMapS (toIssueMap r.2.sink), node "dest" [dvalS r.1], node "log" (r.2.log.map eventS)])
   | _ => none
 
+def urlValues? : Sexp → Option (List (String × List String))
+  | .list kvs => kvs.mapM fun kv => match kv with
+    | .list (k :: vs) => do pure (← k.str?, ← vs.mapM Sexp.str?)
+    | _ => none
+  | _ => none
+
+/-- the record a url.Values source presents: every key through `urlDataProvider.Get` -/
+def urlRecord (data : List (String × List String)) : Val :=
+  .flat (data.map fun (k, _) => (k, Http.urlGet data k))
+
+/-- `(http ID METHOD CT QUERY FORM JSON SCHEMA DEST ORDER EXT)`: zhttp.Request then Parse -/
+def runHttp (args : List Sexp) : Option Sexp := do
+  match args with
+  | [id, method, ct, queryS, formS, jsonS, schemaS, destS, orderS, extS] =>
+    let method ← method.str?
+    let ct ← ct.str?
+    let o ← oracle? extS
+    let s ← schema? o schemaS
+    let d ← dval? destS
+    let ω ← orderOracle? orderS
+    let env : Env := { fmt := defaultFmt Gen.defaultMap, ω := ω }
+    let src := Http.dispatch Gen.httpMethods Gen.httpTypes method.toList ct.toList
+    -- decoded input (or the decoder's failure code) and the tag of the source
+    let (decoded, tag) : (Except String Val × String) ← match src with
+      | .query => do pure (.ok (urlRecord (← urlValues? queryS)), "query")
+      | .form => match formS with
+        | .atom "err" => pure (.error "invalid_form", "form")
+        | .list [.atom "ok", vs] => do pure (.ok (urlRecord (← urlValues? vs)), "form")
+        | _ => none
+      | .json => match jsonS with
+        | .atom "err" => pure (.error "invalid_json", "json")
+        | .list [.atom "ok", v] => do
+          let v ← val? v
+          -- zjson hands an empty object over as a nil provider: a top-level pointer schema sees "absent"
+          -- (pinned by the repository's TestTopLevelOptionalStruct), a struct schema an empty record
+          let v := match s, v with
+            | .ptr .., .obj [] => Val.nil
+            | _, v => v
+          pure (.ok v, "json")
+        | _ => none
+    let r : DVal × St := match decoded with
+      | .error code => (d, { sink := [{ code := code, path := "", dtype := "struct", params := [], message := env.fmt code "struct" [] }], log := [] })
+      | .ok v => Spec.run env .parse s (some tag) v d
+    pure (node "res" [id, .atom (match src with | .query => "query" | .form => "form" | .json => "json"),
+      issueMapS (toIssueMap r.2.sink), node "dest" [dvalS r.1], node "log" (r.2.log.map eventS)])
+  | _ => none
+
 def fieldMap? : Sexp → Option Helpers.FieldMap
   | .list kvs => kvs.mapM fun kv => match kv with
     | .list [k, v] => do pure (← k.str?, ← v.nat?)
@@ -203,6 +251,10 @@ def dispatch (line : String) : String :=
       match runEngine args with
       | some r => toString r
       | none => "(bad-case engine)"
+    | some ("http", args) =>
+      match runHttp args with
+      | some r => toString r
+      | none => "(bad-case http)"
     | some ("helpers", args) =>
       match runHelpers args with
       | some r => toString r
